@@ -587,7 +587,8 @@ func ioInput(L *LState) int {
 		L.Push(file)
 		return 1
 	case *LUserData:
-		if _, ok := lv.Value.(*lFile); ok {
+		if file, ok := lv.Value.(*lFile); ok {
+			errorIfFileIsClosed(L, file)
 			L.Get(UpvalueIndex(1)).(*LTable).RawSetInt(fileDefInIndex, lv)
 			L.Push(lv)
 			return 1
@@ -639,6 +640,9 @@ func ioLinesIter(L *LState) int {
 
 func ioLines(L *LState) int {
 	if L.GetTop() == 0 {
+		if fileDefIn(L).Value.(*lFile).closed {
+			L.RaiseError("file is already closed")
+		}
 		L.Push(L.Get(UpvalueIndex(2)))
 		L.Push(fileDefIn(L))
 		return 2
@@ -772,7 +776,8 @@ func ioOutput(L *LState) int {
 		L.Push(file)
 		return 1
 	case *LUserData:
-		if _, ok := lv.Value.(*lFile); ok {
+		if file, ok := lv.Value.(*lFile); ok {
+			errorIfFileIsClosed(L, file)
 			L.Get(UpvalueIndex(1)).(*LTable).RawSetInt(fileDefOutIndex, lv)
 			L.Push(lv)
 			return 1
